@@ -1360,9 +1360,13 @@ func conv(t_dst, t_src types.Type, x value) value {
 			// simulate the memory layout of a real
 			// compiled implementation.
 			//
-			// To at least preserve type-safety, we'll
-			// just return the zero value of the
-			// destination type.
+			// symgo: the round trip *T -> unsafe.Pointer -> *T (atomic.Pointer[T], atomic.Value
+			// style code) gets the same cell back; reinterpreting casts are not supported.
+			if p, ok := x.(unsafe.Pointer); ok && p != nil {
+				if _, isPtr := ut_dst.(*types.Pointer); isPtr {
+					return (*value)(p)
+				}
+			}
 			return zero(t_dst)
 		}
 
